@@ -4,6 +4,7 @@ import (
 	"bufio"
 	"context"
 	"encoding/json"
+	"errors"
 	"fmt"
 	"math/rand"
 	"net"
@@ -97,6 +98,8 @@ func maskValue(class string) int32 {
 		return int32(1 << 20)
 	case "sign":
 		return int32(-1 << 31)
+	case "cfgerror":
+		return -1 // no mask at all: the plugin answers Configure with an error (and keeps its connection open)
 	}
 	return 0
 }
@@ -145,6 +148,9 @@ func (s *session) regRun(w *rec.Writer, sc RegScenario) error {
 			Configure: func(*api.ConfigureRequest) (*api.ConfigureResponse, error) {
 				if a.Stall == "noconfigure" {
 					<-block
+				}
+				if a.Mask == "cfgerror" {
+					return nil, errors.New("verif: the plugin rejects its configuration")
 				}
 				return &api.ConfigureResponse{Events: mask}, nil
 			},
